@@ -56,6 +56,9 @@ Definition table : list (string * (sx -> sx)) := [
   ("link.final_opts", fun a => let p := nth_sx 0 a in
       sx_opt (sx_list sx_opt1) (p_final_opts (pj_ms p) (pj_mt p) (pj_nodes p) (pj_pkgopts p) (un_bool (nth_sx 1 a))
                                              (un_nat (nth_sx 2 a))));
+  ("link.opt_flags", fun a => let p := nth_sx 0 a in
+      sx_opt (sx_list sx_opt1) (p_final_flags (pj_ms p) (pj_mt p) (pj_nodes p) (pj_pkgopts p) (un_bool (nth_sx 1 a))
+                                              (un_nat (nth_sx 2 a))));
   ("link.lib_flags", fun a => sx_list sx_ltok (lib_flags (un_libs (nth_sx 0 a))));
   ("link.rpaths", fun a => let p := nth_sx 0 a in
       sx_opt (sx_list sx_str) (p_rpaths (pj_ms p) (pj_mt p) (pj_nodes p) (un_bool (nth_sx 1 a)) (un_nat (nth_sx 2 a))));
